@@ -44,19 +44,22 @@ class Batch:
             if not tests:
                 tests = [{'layer': 0}]
             opts = []
-            shuffled = self.shuffle == 'always' or (self.shuffle == 'mixed' and rng.random() < 0.5)
+            r = rng.random()
+            kind = {'always': 'seeded' if r < 0.7 else 'unseeded',
+                    'mixed': 'none' if r < 0.4 else 'seeded' if r < 0.8 else 'unseeded', 'never': 'none'}[self.shuffle]
+            shuffled = kind == 'seeded'
             seed = rng.choice([0, 42, -7, rng.randint(0, 10 ** 9)])
             if shuffled:
                 opts += ['--shuffle', '--shuffle-seed=%d' % seed]
-            elif rng.random() < 0.3 and self.shuffle != 'never':
-                opts += ['--shuffle']          # unseeded: the parent's seed must reach the children
+            elif kind == 'unseeded':
+                opts += ['--shuffle']          # the seed the parent draws must reach the children
             flt = None
             if rng.random() < 0.3:
                 flt = rng.choice(layers)['name']
                 opts += ['--layer', flt + '$']
             cases.append({'layers': layers, 'tests': tests, 'base_options': opts, 'seed': seed if shuffled else None,
                           'filter': flt, 'j': rng.choice([2, 3])})
-            rep.count('modes:shuffled=%s' % shuffled)
+            rep.count('modes:shuffle=%s' % kind)
         return cases
 
     def observe(self, cases):
